@@ -19,6 +19,9 @@ from .c11 import emit
 
 def d1(ctx, prog, lk):
     for f, info in lk.builders.items():
+        if info.get('wrapper_of') is not None:
+            ctx.ok('C12-D1', f'{f.key}::hands out the table of {info["wrapper_of"].name}', 'every value returned is the table the builder made for the same argument (or a copy of it)', f.where())
+            continue
         fill = info['fill']
         ctx.ok('C12-D1', f'{f.key}::{norm(fill)[:100]}', 'every table entry starts as the sentinel -1', f.where(fill))
         for status, node, detail in lut.check_builder(f, info):
@@ -27,6 +30,7 @@ def d1(ctx, prog, lk):
         g = info['nested']
         shape = info['plain_lookup']
         b = info['builder']
+        b = lk.builders[b].get('wrapper_of') or b
         fill = lk.builders[b]['fill']
         # does the table extent depend on the declared values?
         ext_dep = bool({n.id for n in ast.walk(fill.value) if isinstance(n, ast.Name)} & (set(b.params) | {
